@@ -8,7 +8,7 @@ SHARDS = {"quick": 4, "thorough": 16}
 WATCHDOG = {"quick": 900, "thorough": 3600}
 CASES = {"quick": 400, "thorough": 4000}
 FLOORS = {
-    "quick": {"distinct_nontrivial": 500, "segments_checked": 1500, "invalid_args_checked": 300,
+    "quick": {"distinct_nontrivial": 500, "segments_checked": 1000, "invalid_args_checked": 150,
               "outlier_cases": 100, "cases[n=1]": 3, "cases[seed=0]": 10},
     "thorough": {"distinct_nontrivial": 10000, "segments_checked": 30000},
 }
